@@ -1,6 +1,7 @@
 (* C11 — model of how spikeglx.Reader / OnlineReader decide how many sample
    frames of a binary they expose (src/spikeglx.py, current tree, i.e. with
-   the repair "Reader.open exposes only the complete sample frames ...").
+   the repairs f9ac653 "Reader.open exposes only the complete sample frames ..."
+   and 381463f "no KeyError when the size-mismatch warning is formatted").
 
    Floats are IEEE binary64 as formalised by Flocq (BinarySingleNaN, prec 53,
    emax 1024), every operation rounded to nearest-even exactly as CPython /
@@ -66,9 +67,8 @@ Inductive outcome :=
       (* shape (ns, nc); meta.get('fileTimeSecs') afterwards; was it rewritten *)
   | MmapError     (* np.memmap raises ValueError *)
   | IntError      (* int() of inf / nan *)
-  | TypeErr       (* fileTimeSecs missing where Reader.ns needs it *)
-  | KeyErr.       (* the mismatch warning formats meta['fileSizeBytes'] / meta['fileTimeSecs']
-                     of a meta file that has none (recording in progress) *)
+  | TypeErr.      (* fileTimeSecs missing where Reader.ns needs it (offline Reader on the meta
+                     file of a recording in progress): None * float *)
 
 (* np.memmap(file, dtype=int16, mode='r', shape=(ns, nc)):  mmap.mmap(fd, ns*nc*2)
    raises when the length exceeds the file size, when the file is empty, or
@@ -80,17 +80,15 @@ Definition memmap_ok (nbytes ns nc : Z) : bool :=
      if self.nc * self.ns * itemsize != self.nbytes:
          ftsec = st_size // (itemsize * self.nc) / self.fs
          if self.meta is not None:
-             if not self.ignore_warnings: _logger.warning(f"...{self.meta['fileSizeBytes']}...{self.meta['fileTimeSecs']}...")
+             if not self.ignore_warnings: _logger.warning(f"...{self.meta.get('fileSizeBytes')}...")   (cannot raise)
              self.meta["fileTimeSecs"] = ftsec
-     self._raw = np.memmap(..., shape=(self.ns, self.nc))
-   warn_ok = ignore_warnings or (the meta has both fileSizeBytes and fileTimeSecs). *)
-Definition open_bin (online warn_ok : bool) (nbytes nc : Z) (fts : option b64) (fs : b64) : outcome :=
+     self._raw = np.memmap(..., shape=(self.ns, self.nc)) *)
+Definition open_bin (online : bool) (nbytes nc : Z) (fts : option b64) (fs : b64) : outcome :=
   match reader_ns online nbytes nc fts fs with
   | NsInt => IntError
   | NsType => TypeErr
   | NsOk ns0 =>
       let mismatch := negb (nc * ns0 * 2 =? nbytes) in
-      if mismatch && negb warn_ok then KeyErr else
       let fts' := if mismatch then Some (fdiv (of_Z (nbytes / (2 * nc))) fs) else fts in
       match reader_ns online nbytes nc fts' fs with
       | NsInt => IntError
@@ -103,7 +101,7 @@ Definition open_bin (online warn_ok : bool) (nbytes nc : Z) (fts : option b64) (
 (* Reader.open, mtscomp branch: the .ch file announces (chns, chnc);
      if self._raw.shape != (self.ns, self.nc):
          ftsec = self._raw.shape[0] / self.fs
-         if not self.ignore_warnings: _logger.warning(f"...{self.meta['fileTimeSecs']}...")
+         if not self.ignore_warnings: _logger.warning(f"...{self.meta.get('fileTimeSecs')}...")
          self.meta["fileTimeSecs"] = ftsec
    no memmap; Reader.shape afterwards is (self.ns, self.nc). *)
 Definition open_cbin (chns chnc nc : Z) (fts : option b64) (fs : b64) : outcome :=
